@@ -766,3 +766,19 @@ Proof.
   intros H Hb Hl H1 H2 H3 Hk. eapply sat_bind; [apply H; auto|].
   cbn beta. intros a p' ->. apply Hk.
 Qed.
+
+(** the leaf contract in plain words: no panic from any stream the call sites can present *)
+Lemma leaf_sat_no_panic {A} (dec : N -> prog A) : leaf_sat dec ->
+  forall d p size, bytes_ok d = true -> lenN d < 2 ^ 62 -> 8 <= p -> p <= lenN d -> size < 2 ^ 62 ->
+    is_panic (fst (run (dec size) (stream_at d p))) = false.
+Proof. intros H d p size Hb Hl H1 H2 H3. exact (outcome_no_panic _ _ (H d p size Hb Hl H1 H2 H3)). Qed.
+
+Lemma leaf_safe_no_panic {A} (dec : N -> prog A) : leaf_safe dec ->
+  forall s size, Inv s -> 8 <= s_pos s -> s_pos s <= s_len s -> size < 2 ^ 62 ->
+    is_panic (fst (run (dec size) s)) = false.
+Proof.
+  intros H s size Hi H1 H2 H3.
+  apply (triple_no_panic _ _ _ s (H size (s_data s) (s_pos s))).
+  destruct (Inv_inv s Hi) as (_ & _ & _ & E & _). rewrite E in H2.
+  repeat split; auto; apply Hi.
+Qed.
